@@ -38,6 +38,7 @@ CONSTANTS
     AllowNil,     \* BOOLEAN: also generate the step = nil variant of unit-step slices
     ChainOnly,    \* BOOLEAN: Slice/Reshape only the newest view (chains instead of trees of views)
     WriteNewest,  \* BOOLEAN: writes go through the newest view only (else through any live view)
+    AllowCopy,    \* BOOLEAN: offer ReshapeCopy (detached copy of a non-contiguous view; C03 lock-step only)
     EarlyStop,    \* BOOLEAN: Finish may be taken before the bounds are exhausted (simulation)
     Emit          \* BOOLEAN: Finish prints the behaviour as JSON
 
@@ -150,6 +151,23 @@ Reshape ==
                 /\ stores' = stores
                 /\ Log([op |-> "reshape", v |-> vi, shape |-> ns, w |-> Len(views) + 1,
                         offs |-> w.offs, contig |-> TRUE])
+    /\ nR' = nR + 1
+    /\ UNCHANGED <<fresh, nS, nW, done>>
+
+\* Reshape of a NON-contiguous view: the Go-backed arrays return a detached copy (a new store holding the
+\* row-major values).  C02 is silent about aliasing here, so behaviours containing this action are only
+\* used for the lock-step comparison of the two back-ends (C03: observational identity).
+ReshapeCopy ==
+    /\ stores # <<>> /\ ~done /\ nR < MaxReshapes /\ AllowCopy
+    /\ \E vi \in ViewChoice :
+       LET v == views[vi] IN
+       /\ ~Contig(v)
+       /\ \E ns \in ShapesOfSize(Len(v.offs)) :
+          LET w == RootView(Len(stores) + 1, ns) IN
+          /\ stores' = Append(stores, Vals(v))
+          /\ views' = Append(views, w)
+          /\ hist' = Append(hist, [op |-> "reshapecopy", v |-> vi, shape |-> ns, w |-> Len(views) + 1,
+                                    offs |-> w.offs, contig |-> TRUE, after |-> stores'])
     /\ nR' = nR + 1
     /\ UNCHANGED <<fresh, nS, nW, done>>
 
@@ -267,7 +285,7 @@ Finish == /\ stores # <<>> /\ ~done
           /\ (Emit => PrintT(ToJson([case |-> hist])))
           /\ UNCHANGED <<stores, views, fresh, nS, nW, nR, hist>>
 
-Next == NewArray \/ Slice \/ Reshape \/ Write \/ Finish
+Next == NewArray \/ Slice \/ Reshape \/ ReshapeCopy \/ Write \/ Finish
 Spec == Init /\ [][Next]_vars
 
 ---------------------------------------------------------------------------
@@ -310,5 +328,5 @@ Live == \A ui, vi \in DOMAIN views :
                u.offs[j] = v.offs[k] => Vals(u)[j] = Vals(v)[k]
 
 \* slicing and reshaping never change any store
-ViewOpsPure == [][ (nS' = nS + 1 \/ nR' = nR + 1) => stores' = stores ]_vars
+ViewOpsPure == [][ (nS' = nS + 1 \/ nR' = nR + 1) => \A s \in DOMAIN stores : stores'[s] = stores[s] ]_vars
 =============================================================================
